@@ -321,6 +321,13 @@ class Executor(object):
         self._undecided("assignment target %s" % type(tgt).__name__)
 
     def store_attr(self, st, obj, attr, v):
+        if attr == "_funiverse" and type(v).__name__ == "FrameWinV":
+            st.heap.set(obj, "_funiverse_hi", v.hi)
+            return
+        if attr == "_funiverse" and isinstance(v, FrameV):
+            # the whole, unwindowed frame: no upper bound on the labels it exposes
+            st.heap.set(obj, "_funiverse_hi", dsl.fresh_int("unbounded_window"))
+            return
         if attr in ("temp", "perm"):
             if (isinstance(v, _EmptyDict) or getattr(v, "desc", None) == "{}") and attr == "temp":
                 m = st.heap.ensure("temp#has")
@@ -339,7 +346,7 @@ class Executor(object):
             return
         if t == "hist" or t == "list" or t == "dict" or t == "opthist":
             self._undecided("store of %s attribute %s" % (t, attr))
-        if v is NONEV and t not in ("optfloat", "optdict"):
+        if v is NONEV and t not in ("optfloat", "optdict", "optdate"):
             self._undecided("store of None into %s" % attr)
         hook = getattr(self, "on_store", None)
         if hook:
@@ -801,6 +808,8 @@ class Executor(object):
             return r if isinstance(op, ast.Eq) else Not(r)
         if isinstance(a, Opt) or isinstance(b, Opt):
             # optional number against a number: None == x is False, None != x is True
+            if isinstance(op, (ast.Eq, ast.NotEq)) and isinstance(b, Opt) and isinstance(b.val, Num) and not isinstance(a, Opt):
+                a, b = b, a
             if isinstance(op, (ast.Eq, ast.NotEq)) and isinstance(a, Opt) and isinstance(a.val, Num) and not isinstance(b, Opt):
                 e_ = And(Not(a.isnone), a.val.eq(self._num(st, b)))
                 return e_ if isinstance(op, ast.Eq) else Not(e_)
